@@ -198,7 +198,9 @@ def _body_inner(envelope):
 def unit_roundtrips(ctx):
     msgs, sp, idp = library_messages(ctx)
     relays = ["", "plain", "x&Signature=abc&SigAlg=evil", '"><input name="SAMLResponse" value="evil', "a b+c%20d/é😀", "tab\tq'uote\\",
-              "https://sp.example.org/return?a=1&b=2#frag", "{0}{relay_state_input}", "~tilde~"]
+              "https://sp.example.org/return?a=1&b=2#frag", "{0}{relay_state_input}", "~tilde~",
+              # text that LOOKS like character references (a RelayState is data: it must come back as it went in)
+              "a&amp;b", "&#34;&#x22;&quot;", "?lang=en&region=eu&copy=1&lt=2&amp", "&amp;amp;lt;"]
     if not ctx.quick:
         relays += strings(ctx, 60, 30)
     payloads = [("payload_text", "just text, not xml & < > \" ' + % = ? é😀"), ("payload_empty_el", "<a/>"),
